@@ -70,7 +70,9 @@ def mass_account(eng, res, rule="R-MASS-ACCOUNT"):
     # per-element accumulators: one interval-remembering accumulator per element, starting at 0
     init = eng.prog.func("mol_prob.PossibleMatch.__init__")
     st = [s for s in own_nodes(init.node) if isinstance(s, ast.Assign) and src(s.targets[0]) == "self._element_weights"]
-    ok = len(st) == 1 and src(st[0].value) == "[RememberAdd(0.0) for _ in range(self._Nelements)]"
+    from ..pat import unify as _u
+
+    ok = len(st) == 1 and _u("[RememberAdd(0.0) for $X in range(self._Nelements)]", src(st[0].value)) is not None
     res.ob(rule, init, "accumulators", "one interval-remembering accumulator per element, starting at 0", init.node, ok, f"{src(st[0].value) if st else None}")
     return n
 
@@ -120,42 +122,48 @@ def prob_product(eng, res, rule="R-PROB-PRODUCT"):
     fl = eng.flow(gp)
     rets = [r for r in own_nodes(gp.node) if isinstance(r, ast.Return)]
     t = src(fl.expand_names(rets[0].value, fl.cfg.node_of(rets[0]))) if rets else ""
-    res.ob(rule, gp, "sum-over-matches", "the reported probability is the sum over all full matches", gp.node, "np.sum([match.probability for match in full_matches])" in t, t[:100])
+    res.ob(rule, gp, "sum-over-matches", "the reported probability is the sum over all full matches", gp.node, __import__("re").search(r"np\.sum\(\[(\w+)\.probability for \1 in (\w+)\]\)", t) is not None and _is_full_matches(gp, fl, t), t[:100])
+
+
+def _is_full_matches(gp, fl, t) -> bool:
+    """the summed list is the one returned alongside and the one the finished matches are added to"""
+    m = __import__("re").search(r"np\.sum\(\[(\w+)\.probability for \1 in (\w+)\]\)", t)
+    lst = m.group(2)
+    augs = [d for d in fl.defs if d.name == lst and d.kind == "aug"]
+    return len(augs) >= 1 and t.rstrip(")").endswith(lst)
 
 
 def start_prob(eng, res, rule="R-START-PROB"):
+    from .c17 import locate
+    from ..pat import unify
+
     f = eng.prog.func("mol_prob.get_starting_tokens")
     res.unit(f)
     flow = eng.flow(f)
     cfg = flow.cfg
-    apps = [c for c in calls(f, "append")]
-    one = [c for c in apps if src(c.func.value) == "start_probabilities" and src(c.args[0]) == "1.0"]
-    ok = len(one) == 1 and any(t == "isinstance(start_element, SmilesToken)" and p for t, p in _guards(flow, one[0]))
-    res.ob(rule, f, "prefix-token", "a molecule that starts with a plain token starts there with probability 1", one[0] if one else f.node, ok)
-    # end groups: weight = sum of descriptor weights, normalised by their own sum, aligned with the fragment list
-    frag = [c for c in apps if src(c.func.value) == "start_fragments" and any(src(l.iter).endswith(".end_tokens") for l in cfg.enclosing_loops(c))]
-    wapp = [c for c in apps if src(c.func.value) == "end_weights" and any(src(l.iter).endswith(".end_tokens") for l in cfg.enclosing_loops(c))]
-    ok = len(frag) == 1 and len(wapp) == 1
-    if ok:
-        lf = [l for l in cfg.enclosing_loops(frag[0]) if src(l.iter).endswith(".end_tokens")][0]
-        lw = [l for l in cfg.enclosing_loops(wapp[0]) if src(l.iter).endswith(".end_tokens")][0]
-        ok = lf is lw and src(frag[0].args[0]) == lf.target.id
-        wv = wapp[0].args[0].id if isinstance(wapp[0].args[0], ast.Name) else None
-        augs = [d for d in flow.defs if d.name == wv and d.kind == "aug"]
-        ok = ok and len(augs) == 1 and src(augs[0].value).endswith(".weight") and any(src(l.iter) == f"{lf.target.id}.bond_descriptors" for l in cfg.enclosing_loops(augs[0].stmt))
-        init = [d for d in flow.defs if d.name == wv and d.kind == "assign"]
-        ok = ok and len(init) == 1 and src(init[0].value) == "0" and lf in cfg.enclosing_loops(init[0].stmt)
-    res.ob(rule, f, "end-group-weights", "each end group's start weight is the sum of its descriptors' weights, gathered in the same traversal as the start fragments", f.node, ok)
-    norms = [d for d in flow.defs if d.name == "end_weights" and d.kind == "aug" and isinstance(d.extra, ast.Div)]
-    ok = len(norms) == 1 and src(norms[0].value) in ("np.sum(end_weights)", "end_weights.sum()")
-    ext = [n for n in own_nodes(f.node) if isinstance(n, ast.AugAssign) and src(n.target) == "start_probabilities"]
-    ok = ok and len(ext) == 1 and src(ext[0].value) == "list(end_weights)" and cfg.must_pass(norms[0].nid, cfg.node_of(ext[0]))
-    res.ob(rule, f, "normalised", "the start probabilities of the end groups are their weights divided by their own sum", f.node, ok)
+    big = f.params[1]
+    e, nd = locate(f, [f"$SE = {big}.elements[0]", "$SF.append($SE)", "$SP.append(1.0)", "for $ET in $SE.end_tokens", "$SF.append($ET)", "$W = 0", "for $BD in $ET.bond_descriptors",
+                       "$W += $BD.weight", "$EW.append($W)", "$EW /= np.sum($EW)", "$SP += list($EW)", "return ($SF, $SP)"])
+    res.ob(rule, f, "shape", "start fragments and their probabilities are built in parallel lists and returned together", f.node, e is not None, "statement pattern not found")
+    if e is None:
+        return
+    one = nd["$SP.append(1.0)"]
+    g = {t for t, p in _guards(flow, one) if p}
+    ok = g == {f"isinstance({e['SE']}, SmilesToken)"} and g == {t for t, p in _guards(flow, nd["$SF.append($SE)"]) if p}
+    res.ob(rule, f, "prefix-token", "a molecule that starts with a plain token starts there with probability 1", one, ok)
+    lp = nd["for $ET in $SE.end_tokens"]
+    inl = nd["for $BD in $ET.bond_descriptors"]
+    ok = lp in cfg.enclosing_loops(nd["$SF.append($ET)"]) and lp in cfg.enclosing_loops(nd["$EW.append($W)"]) and lp in cfg.enclosing_loops(nd["$W = 0"]) \
+        and inl in cfg.enclosing_loops(nd["$W += $BD.weight"]) and inl not in cfg.enclosing_loops(nd["$EW.append($W)"]) \
+        and {t for t, p in _guards(flow, lp) if p} == {f"isinstance({e['SE']}, Stochastic)"} and not [x for x in _guards(flow, nd["$W += $BD.weight"]) if "isinstance" not in x[0]]
+    res.ob(rule, f, "end-group-weights", "each end group's start weight is the sum of its descriptors' weights, gathered in the same traversal as the start fragments", lp, ok)
+    nrm, ext = nd["$EW /= np.sum($EW)"], nd["$SP += list($EW)"]
+    ok = cfg.must_pass(cfg.node_of(nrm), cfg.node_of(ext)) and not cfg.enclosing_loops(nrm) and cfg.node_of(nrm) in cfg.reachable([cfg.node_of(lp)])
+    res.ob(rule, f, "normalised", "the start probabilities of the end groups are their weights divided by their own sum", nrm, ok)
     gp = eng.prog.func("mol_prob.get_prob")
     fl = eng.flow(gp)
-    pm = [c for c in calls(gp, "PossibleMatch")]
-    ok = len(pm) == 1 and len(pm[0].args) == 5 and any(src(l.iter) == "zip(starting_token, starting_prob)" for l in fl.cfg.enclosing_loops(pm[0])) and src(pm[0].args[3]) == "token" and src(pm[0].args[4]) == "prob"
-    res.ob(rule, gp, "start-prob-used", "each start fragment's probability is the initial probability of the matches started from it", pm[0] if pm else gp.node, ok)
+    e2, nd2 = locate(gp, [f"$ST, $SPR = get_starting_tokens({gp.params[0]}, {gp.params[1]})", "for ($TOK, $PR) in zip($ST, $SPR)", f"$M = PossibleMatch($MOL, {gp.params[1]}, $SUB, $TOK, $PR)"])
+    res.ob(rule, gp, "start-prob-used", "each start fragment's probability is the initial probability of the matches started from it", gp.node, e2 is not None)
     init = eng.prog.func("mol_prob.PossibleMatch.__init__")
     st = [s for s in own_nodes(init.node) if isinstance(s, ast.Assign) and src(s.targets[0]) == "self._log_prob" and "np.log" in src(s.value)]
     ok = len(st) == 1 and src(st[0].value) == f"np.log({init.params[5]})"
